@@ -25,13 +25,16 @@ def nc_ident(nc):
         # sequences are ruamel CommentedSeq objects
         # virtual result (slice / collector)
         elems = []
+        base = nc.parentref
+        if is_seq(nc.parent) and isinstance(base, int) and base < 0:
+            base += len(nc.parent)
         for k, e in enumerate(node):
             if is_nodecoords(e):
                 elems.append(nc_ident(e))
-            elif (is_seq(nc.parent) and isinstance(nc.parentref, int)
-                  and 0 <= nc.parentref + k < len(nc.parent)
-                  and nc.parent[nc.parentref + k] is e):
-                elems.append((id(nc.parent), repr(("i", nc.parentref + k))))
+            elif (is_seq(nc.parent) and isinstance(base, int)
+                  and 0 <= base + k < len(nc.parent)
+                  and nc.parent[base + k] is e):
+                elems.append((id(nc.parent), repr(("i", base + k))))
             else:
                 elems.append(("raw", repr(e)))
         return ("virt",) + tuple(elems)
